@@ -4,6 +4,7 @@ import (
 	"fmt"
 	"strconv"
 
+	"github.com/HobbyOSs/gosk/pkg/cpu"
 	"github.com/HobbyOSs/gosk/pkg/ocode"
 )
 
@@ -32,7 +33,7 @@ func handleCALL(params x86genParams, ctx *CodeGenContext) ([]byte, error) {
 	offset32 := destAddr - currentAddr - 5
 
 	// オフセットが rel16 の範囲内か確認
-	if offset32 >= -32768 && offset32 <= 32767 {
+	if ctx.BitMode != cpu.MODE_32BIT && offset32 >= -32768 && offset32 <= 32767 {
 		// CALL rel16 (オペコード: e8, オフセット: 2 bytes)
 		offset16 := destAddr - currentAddr - 3 // rel16 の命令長は 3 バイト
 		machineCode = []byte{0xe8, byte(offset16), byte(offset16 >> 8)}
